@@ -306,13 +306,16 @@ type knownFile struct {
 	Fixed []string       `json:"fixed"`
 }
 
+func knownFilePath() string {
+	if alt := os.Getenv("VERIF_KNOWN_FILE"); alt != "" {
+		return alt // testing the mechanism itself
+	}
+	return filepath.Join(verifHome, "known_findings.json")
+}
+
 func loadKnown() *knownFile {
 	var k knownFile
-	path := filepath.Join(verifHome, "known_findings.json")
-	if alt := os.Getenv("VERIF_KNOWN_FILE"); alt != "" {
-		path = alt // testing the mechanism itself
-	}
-	b, err := os.ReadFile(path)
+	b, err := os.ReadFile(knownFilePath())
 	if err != nil {
 		return &k
 	}
@@ -465,7 +468,7 @@ func runPass(b *build, prop string, seed uint64, secs float64, nWorkers int, rac
 			if race {
 				raceLog = filepath.Join(b.Dir, fmt.Sprintf("race-w%d", w))
 			}
-			o := runWorker(bin, []string{"run", "-prop", prop, "-seed", fmt.Sprint(seed), "-worker", fmt.Sprint(w), "-secs", fmt.Sprint(longSecs), "-outdir", b.Dir}, 2, raceLog)
+			o := runWorker(bin, []string{"run", "-prop", prop, "-seed", fmt.Sprint(seed), "-worker", fmt.Sprint(w), "-secs", fmt.Sprint(longSecs), "-outdir", b.Dir, "-known", knownFilePath()}, 2, raceLog)
 			mu.Lock()
 			outs = append(outs, o)
 			mu.Unlock()
@@ -476,7 +479,7 @@ func runPass(b *build, prop string, seed uint64, secs float64, nWorkers int, rac
 				if race {
 					raceLog = filepath.Join(b.Dir, fmt.Sprintf("race-c%d", id))
 				}
-				o := runWorker(bin, []string{"run", "-prop", prop, "-seed", fmt.Sprint(seed), "-worker", fmt.Sprint(id), "-runs", "6", "-outdir", b.Dir, "-cold"}, 2, raceLog)
+				o := runWorker(bin, []string{"run", "-prop", prop, "-seed", fmt.Sprint(seed), "-worker", fmt.Sprint(id), "-runs", "6", "-outdir", b.Dir, "-cold", "-known", knownFilePath()}, 2, raceLog)
 				mu.Lock()
 				outs = append(outs, o)
 				mu.Unlock()
